@@ -7,9 +7,10 @@ import WR.C09.Shape
     free of in-flow block-level boxes (`blockInInline_linesClean*`), and the block-container clause is
     preserved (`blockInInline_bcOK*`);
   * `allB p` = "p at every box the pass visits" is the exact hypothesis; it follows from `allAll p`
-    (p everywhere, also below running boxes) and from `allN p` + no running inline box in a line
-    + no running line box;
-  * witnesses: `running_inline_split_witness` (a running inline box is split, `bcOK` is lost),
+    (p everywhere, also below running boxes) and from `allN p` + no running line box;
+  * a running inline box is opaque (never entered by `innerBII`/`innerKids`): `linesCleanR` /
+    `noFlowBlockR` are `linesClean` / `noFlowBlock` that do not look below running inline boxes;
+  * witnesses: `running_inline_kept` (a running inline box is kept unchanged),
     `running_line_witness` (a running line box is entered: `allN` hypotheses alone are not enough).
 -/
 namespace WR.C09
@@ -17,10 +18,24 @@ namespace WR.C09
 def splitWitness : Box :=
   .mk .block {} [ .mk .line {} [ .mk .inline { running := true } [ .mk .text { text := "a" } [] [], .mk .block {} [ .mk .text { text := "b" } [] [] ] [], .mk .text { text := "c" } [] [] ] [] ] [] ] []
 
-theorem running_inline_split_witness :
-    ∃ b', blockInInline splitWitness = .ok b' ∧ allN bcOK splitWitness = true ∧
-      allN linesAlone splitWitness = true ∧ allN bcOK b' = false := by
-  refine ⟨_, rfl, ?_, ?_, ?_⟩ <;> decide
+/-- regression example: a running inline box inside a line is not split any more -/
+theorem running_inline_kept :
+    ∃ b', blockInInline splitWitness = .ok b' ∧ allN bcOK b' = true ∧ b' = splitWitness :=
+  ⟨splitWitness, rfl, by decide, rfl⟩
+
+mutual
+  /-- `noFlowBlock` with running inline boxes opaque -/
+  def noFlowBlockR : Box → Bool
+    | .mk _ _ kids _ => noFlowBlockRList kids
+  def noFlowBlockRList : List Box → Bool
+    | [] => true
+    | c :: cs => !(isBlockLevel c.ty && inNormalFlow c.a) &&
+        (!(c.ty == .inline && !c.a.running) || noFlowBlockR c) && noFlowBlockRList cs
+end
+
+/-- `linesClean` with running inline boxes opaque -/
+def linesCleanR (_ : Ty) (_ : Attrs) (kids : List Box) : Bool :=
+  kids.all (fun c => !(c.ty == .line) || noFlowBlockR c)
 
 mutual
   def allAll (p : Ty → Attrs → List Box → Bool) : Box → Bool
@@ -33,7 +48,7 @@ end
 def validStack : Box → List Nat → Bool
   | _, [] => true
   | b, k :: r => r.isEmpty || (match b.kids[k]? with
-      | some c => c.ty == .inline && validStack c r
+      | some c => (c.ty == .inline && !c.a.running) && validStack c r
       | none => false)
 
 mutual
@@ -47,7 +62,7 @@ mutual
     | c :: cs, idx, skip, st =>
       if idx < skip then remKids cs (idx + 1) skip st
       else if isBlockLevel c.ty && inNormalFlow c.a then 1 + remKids cs (idx + 1) skip []
-      else if c.ty == .inline then remaining c st + remKids cs (idx + 1) skip []
+      else if c.ty == .inline && !c.a.running then remaining c st + remKids cs (idx + 1) skip []
       else remKids cs (idx + 1) skip []
 end
 
@@ -97,7 +112,8 @@ theorem validStack_nil (b : Box) : validStack b [] = true := by
 
 theorem validStack_cons (b : Box) (k : Nat) (r : List Nat) :
     validStack b (k :: r) = true ↔
-      r = [] ∨ ∃ c, b.kids[k]? = some c ∧ c.ty = .inline ∧ validStack c r = true := by
+      r = [] ∨ ∃ c, b.kids[k]? = some c ∧ (c.ty == .inline && !c.a.running) = true ∧
+        validStack c r = true := by
   rw [validStack]
   cases r with
   | nil => simp
@@ -108,7 +124,8 @@ theorem validStack_cons (b : Box) (k : Nat) (r : List Nat) :
 
 /-- validity of the pair `(skip, st)` for the suffix `cs` of a child list that starts at index `idx` -/
 def validAt (cs : List Box) (idx skip : Nat) (st : List Nat) : Prop :=
-  st = [] ∨ (idx ≤ skip ∧ ∃ c, cs[skip - idx]? = some c ∧ c.ty = .inline ∧ validStack c st = true)
+  st = [] ∨ (idx ≤ skip ∧ ∃ c, cs[skip - idx]? = some c ∧ (c.ty == .inline && !c.a.running) = true ∧
+    validStack c st = true)
 
 theorem validAt_cons_lt (c : Box) (cs : List Box) (idx skip : Nat) (st : List Nat) (h : idx < skip) :
     validAt (c :: cs) idx skip st ↔ validAt cs (idx + 1) skip st := by
@@ -124,7 +141,8 @@ theorem validAt_cons_lt (c : Box) (cs : List Box) (idx skip : Nat) (st : List Na
     · exact Or.inr ⟨by omega, h2⟩
 
 theorem validAt_head (c : Box) (cs : List Box) (idx skip : Nat) (st : List Nat) (h : ¬ idx < skip)
-    (hv : validAt (c :: cs) idx skip st) : st = [] ∨ (c.ty = .inline ∧ validStack c st = true) := by
+    (hv : validAt (c :: cs) idx skip st) :
+    st = [] ∨ ((c.ty == .inline && !c.a.running) = true ∧ validStack c st = true) := by
   rcases hv with h0 | ⟨h1, c', h2, h3, h4⟩
   · exact Or.inl h0
   · have e : skip - idx = 0 := by omega
@@ -179,7 +197,7 @@ end
     non-empty, valid, points further right and has fewer remaining blocks -/
 def ROK (cs : List Box) (idx skip : Nat) (st : List Nat) (r : Option (Box × Resume)) : Prop :=
   ∀ blk st', r = some (blk, st') →
-    isBlockLevel blk.ty = true ∧ allN linesClean blk = true ∧
+    isBlockLevel blk.ty = true ∧ allN linesCleanR blk = true ∧
     ∃ k rr, st' = k :: rr ∧ idx ≤ k ∧ skip ≤ k ∧ validAt cs idx k rr ∧
       remKids cs idx k rr < remKids cs idx skip st
 
@@ -205,27 +223,27 @@ theorem ROK_continue (c : Box) (cs : List Box) (idx skip : Nat) (st : List Nat) 
 def noLineKid (ks : List Box) : Bool := ks.all (fun c => !(c.ty == .line))
 
 def KOK (ks : List Box) : Prop :=
-  noFlowBlockList ks = true ∧ allNList linesClean ks = true ∧ noLineKid ks = true
+  noFlowBlockRList ks = true ∧ allNList linesCleanR ks = true ∧ noLineKid ks = true
 
-theorem KOK_nil : KOK [] := ⟨by simp [noFlowBlockList], by simp [allNList], by simp [noLineKid]⟩
+theorem KOK_nil : KOK [] := ⟨by simp [noFlowBlockRList], by simp [allNList], by simp [noLineKid]⟩
 
 theorem KOK_cons (c : Box) (rest : List Box)
     (hb : (isBlockLevel c.ty && inNormalFlow c.a) = false)
-    (hi : (c.ty == .inline) = true → noFlowBlock c = true)
-    (hcl : allN linesClean c = true) (hl : (c.ty == .line) = false) (hk : KOK rest) :
+    (hi : (c.ty == .inline && !c.a.running) = true → noFlowBlockR c = true)
+    (hcl : allN linesCleanR c = true) (hl : (c.ty == .line) = false) (hk : KOK rest) :
     KOK (c :: rest) := by
   obtain ⟨k1, k2, k3⟩ := hk
   refine ⟨?_, ?_, ?_⟩
-  · rw [noFlowBlockList, hb, k1]
-    cases h : (c.ty == .inline) with
+  · rw [noFlowBlockRList, hb, k1]
+    cases h : (c.ty == .inline && !c.a.running) with
     | false => simp
     | true => simp [hi h]
   · rw [allNList, hcl, k2]; rfl
   · unfold noLineKid at k3 ⊢; rw [List.all_cons, hl, k3]; rfl
 
 theorem linesClean_of_noLineKid (ty : Ty) (a : Attrs) (ks : List Box) (h : noLineKid ks = true) :
-    linesClean ty a ks = true := by
-  unfold linesClean; unfold noLineKid at h
+    linesCleanR ty a ks = true := by
+  unfold linesCleanR; unfold noLineKid at h
   rw [List.all_eq_true] at h ⊢
   intro x hx
   have := h x hx
@@ -264,8 +282,8 @@ theorem bii_allNList_of_forall (p : Ty → Attrs → List Box → Bool) (xs : Li
     rw [allNList, h x (by simp), ih (fun y hy => h y (by simp [hy]))]; rfl
 
 /- `allB p`: `p` holds at every box that `blockInInline` visits: like `allN`, but a line box is entered
-   even when it is running, and so is every inline box reachable from a line box through inline boxes
-   (the descent of `innerBII`, which does not test `running`). -/
+   even when it is running, and so is every non-running inline box reachable from a line box through
+   non-running inline boxes (the descent of `innerBII`). -/
 mutual
   def allB (p : Ty → Attrs → List Box → Bool) : Box → Bool
     | .mk ty a kids _ => kids.isEmpty || a.running || (p ty a kids && allBKids p kids)
@@ -276,7 +294,7 @@ mutual
     | .mk ty a kids _ => p ty a kids && allBInnerKids p kids
   def allBInnerKids (p : Ty → Attrs → List Box → Bool) : List Box → Bool
     | [] => true
-    | c :: cs => (if c.ty == .inline then allBInner p c else allB p c) && allBInnerKids p cs
+    | c :: cs => (if c.ty == .inline && !c.a.running then allBInner p c else allB p c) && allBInnerKids p cs
 end
 
 theorem allBInner_kids (p : Ty → Attrs → List Box → Bool) (c : Box) (h : allBInner p c = true) :
@@ -296,7 +314,7 @@ abbrev biiBLall (ks : List Box) : Bool := ks.all (fun c => isBlockLevel c.ty)
 
 mutual
   theorem bii_main : (b : Box) → allB linesAlone b = true →
-      ∃ b', blockInInline b = .ok b' ∧ b'.ty = b.ty ∧ b'.a = b.a ∧ allN linesClean b' = true ∧
+      ∃ b', blockInInline b = .ok b' ∧ b'.ty = b.ty ∧ b'.a = b.a ∧ allN linesCleanR b' = true ∧
         (allB bcOK b = true → allN bcOK b' = true)
     | .mk ty a kids cols, h => by
       rw [blockInInline]
@@ -306,7 +324,7 @@ mutual
         · rw [allN]
           rcases Bool.or_eq_true_iff.1 hc with h1 | h1
           · have : kids = [] := List.isEmpty_iff.1 h1
-            subst this; simp [linesClean, allNList]
+            subst this; simp [linesCleanR, allNList]
           · simp [h1]
         · rw [allN]
           rcases Bool.or_eq_true_iff.1 hc with h1 | h1
@@ -325,7 +343,7 @@ mutual
         obtain ⟨ks, he, h1, h2, h3⟩ := biiKids_main a kids.length kids hkids hn
         refine ⟨.mk ty a ks cols, ?_, rfl, rfl, ?_, ?_⟩
         · simp [he, bind, Except.bind, pure, Except.pure]
-        · rw [allN]; simp [linesClean, h1, h2]
+        · rw [allN]; simp [linesCleanR, h1, h2]
         · intro hb
           rw [allB, hc', Bool.false_or, Bool.and_eq_true] at hb
           obtain ⟨g1, g2, g3⟩ := h3 hb.2
@@ -343,7 +361,7 @@ mutual
   theorem biiKids_main (pa : Attrs) (n : Nat) : (cs : List Box) → allBKids linesAlone cs = true →
       (n = 1 ∨ noLineKid cs = true) →
       ∃ ks, biiKids pa n cs = .ok ks ∧
-        ks.all (fun c => !(c.ty == .line) || noFlowBlock c) = true ∧ allNList linesClean ks = true ∧
+        ks.all (fun c => !(c.ty == .line) || noFlowBlockR c) = true ∧ allNList linesCleanR ks = true ∧
         (allBKids bcOK cs = true → allNList bcOK ks = true ∧ (biiBLall cs = true → biiBLall ks = true) ∧
           (∀ l, cs = [l] → (l.ty == .line) = true → biiBLall ks = true ∨ singleLine ks = true))
     | [], _, _ => ⟨[], by simp [biiKids, pure, Except.pure], by simp, by simp [allNList],
@@ -369,9 +387,9 @@ mutual
         have hnbc : isBlockContainer c.ty = false := by rw [eq_of_beq hl]; rfl
         have hck := inner_of_nonBC c hc hnbc
         obtain ⟨frags, last, he, ⟨hP1, hP2, hP3, hP4⟩, hF⟩ := resumeLoop_spec pa (fun st => innerBII c st)
-          (fun nl => nl.ty = c.ty ∧ noFlowBlock nl = true ∧ allN linesClean nl = true ∧
+          (fun nl => nl.ty = c.ty ∧ noFlowBlockR nl = true ∧ allN linesCleanR nl = true ∧
             (allBInnerKids bcOK c.kids = true → allN bcOK nl = true))
-          (fun x => isBlockLevel x.ty = true ∧ allN linesClean x = true ∧
+          (fun x => isBlockLevel x.ty = true ∧ allN linesCleanR x = true ∧
             (allBInnerKids bcOK c.kids = true → allN bcOK x = true))
           (fun st => validStack c st = true) (remaining c)
           (fun st hI => by
@@ -382,13 +400,13 @@ mutual
           (fun nl hp => by
             obtain ⟨p1, p2, p3, p4⟩ := hp
             refine ⟨rfl, ?_, fun hH => ?_⟩
-            · simp [anonBlock, anon, allN, allNList, linesClean, anonAttrs, p2, p3]
+            · simp [anonBlock, anon, allN, allNList, linesCleanR, anonAttrs, p2, p3]
             · simp [anonBlock, anon, allN, allNList, bcOK, blockContainerOK, singleLine, anonAttrs,
                 p1, eq_of_beq hl, p4 hH])
           (c.size + 1) [] [] (validStack_nil c) (by have := remaining_lt_size c []; omega) (by simp)
         have hlast : (last.ty == .line) = true := by rw [hP1]; exact hl
         have hnc : ∀ nc : Box, nc = (if frags.isEmpty = true then last else anonBlock pa [last]) →
-            (!(nc.ty == .line) || noFlowBlock nc) = true ∧ allN linesClean nc = true ∧
+            (!(nc.ty == .line) || noFlowBlockR nc) = true ∧ allN linesCleanR nc = true ∧
             (allBInnerKids bcOK c.kids = true → allN bcOK nc = true) := by
           intro nc e
           split at e
@@ -396,13 +414,13 @@ mutual
           · subst e
             refine ⟨?_, ?_, fun hH => ?_⟩
             · simp [anonBlock, anon, Box.ty]
-            · simp [anonBlock, anon, allN, allNList, linesClean, anonAttrs, hP2, hP3]
+            · simp [anonBlock, anon, allN, allNList, linesCleanR, anonAttrs, hP2, hP3]
             · simp [anonBlock, anon, allN, allNList, bcOK, blockContainerOK, singleLine, anonAttrs,
                 hlast, hP4 hH]
         refine ⟨frags ++ (if frags.isEmpty = true then last else anonBlock pa [last]) :: rest, ?_, ?_, ?_, ?_⟩
         · simp [he, hrest, bind, Except.bind, pure, Except.pure]
         · rw [List.all_append, List.all_cons, hr1, (hnc _ rfl).1]
-          have : frags.all (fun c => !(c.ty == .line) || noFlowBlock c) = true :=
+          have : frags.all (fun c => !(c.ty == .line) || noFlowBlockR c) = true :=
             List.all_eq_true.2 (fun x hx => by simp [bii_blockLevel_not_line _ (hF x hx).1])
           rw [this]; rfl
         · rw [bii_allNList_append, allNList, hr2, (hnc _ rfl).2.1,
@@ -448,9 +466,9 @@ mutual
           · cases e; exact absurd hl' hl
   theorem innerBII_main : (c : Box) → (st : Resume) → allBInnerKids linesAlone c.kids = true →
       noLineKid c.kids = true → validStack c st = true →
-      ∃ c' r, innerBII c st = .ok (c', r) ∧ c'.ty = c.ty ∧ noFlowBlock c' = true ∧
-        allN linesClean c' = true ∧
-        (∀ blk st', r = some (blk, st') → isBlockLevel blk.ty = true ∧ allN linesClean blk = true ∧
+      ∃ c' r, innerBII c st = .ok (c', r) ∧ c'.ty = c.ty ∧ noFlowBlockR c' = true ∧
+        allN linesCleanR c' = true ∧
+        (∀ blk st', r = some (blk, st') → isBlockLevel blk.ty = true ∧ allN linesCleanR blk = true ∧
           st' ≠ [] ∧ validStack c st' = true ∧ remaining c st' < remaining c st) ∧
         (isBlockContainer c.ty = false → allBInnerKids bcOK c.kids = true →
           allN bcOK c' = true ∧ ∀ blk st', r = some (blk, st') → allN bcOK blk = true)
@@ -460,9 +478,9 @@ mutual
           remKids kids 0 skip rest = remaining (.mk ty a kids cols) st →
           innerBII (.mk ty a kids cols) st =
             (innerKids kids 0 skip rest >>= fun p => pure (.mk ty a p.1 cols, p.2)) →
-          ∃ c' r, innerBII (.mk ty a kids cols) st = .ok (c', r) ∧ c'.ty = ty ∧ noFlowBlock c' = true ∧
-            allN linesClean c' = true ∧
-            (∀ blk st', r = some (blk, st') → isBlockLevel blk.ty = true ∧ allN linesClean blk = true ∧
+          ∃ c' r, innerBII (.mk ty a kids cols) st = .ok (c', r) ∧ c'.ty = ty ∧ noFlowBlockR c' = true ∧
+            allN linesCleanR c' = true ∧
+            (∀ blk st', r = some (blk, st') → isBlockLevel blk.ty = true ∧ allN linesCleanR blk = true ∧
               st' ≠ [] ∧ validStack (.mk ty a kids cols) st' = true ∧
               remaining (.mk ty a kids cols) st' < remaining (.mk ty a kids cols) st) ∧
             (isBlockContainer ty = false → allBInnerKids bcOK kids = true →
@@ -471,7 +489,7 @@ mutual
         obtain ⟨ks, r, he, ⟨k1, k2, k3⟩, hr, hbk⟩ := innerKids_main kids 0 skip rest hA hL hva
         refine ⟨.mk ty a ks cols, r, ?_, rfl, ?_, ?_, ?_, ?_⟩
         · rw [hm, he]; rfl
-        · rw [noFlowBlock]; exact k1
+        · rw [noFlowBlockR]; exact k1
         · rw [allN, linesClean_of_noLineKid ty a ks k3, k2]; simp
         · intro blk st' e
           obtain ⟨q1, q2, k, rr, e', _, _, hv', hlt⟩ := hr blk st' e
@@ -524,9 +542,10 @@ mutual
           have hst : st = [] := by
             rcases hhead with h | ⟨h, _⟩
             · exact h
-            · simp [h] at hni
+            · simp [hni] at h
           subst hst
-          rw [hni] at hAc
+          have hni' : (c.ty == .inline && !c.a.running) = false := by rw [hni]; rfl
+          rw [hni'] at hAc
           simp only [Bool.false_eq_true, if_false] at hAc
           obtain ⟨blk, he, hty, ha, hcl, hcb⟩ := bii_main c hAc
           refine ⟨[], some (blk, [idx + 1]), ?_, KOK_nil, ?_, fun hb => ?_⟩
@@ -540,25 +559,26 @@ mutual
             simp only [h1, if_false, h2, if_true]
             rw [remKids_skip_irrel cs (idx + 1) (idx + 1) skip [] (by omega) (by omega)]
             omega
-          · rw [allBInnerKids, hni, Bool.and_eq_true] at hb
+          · rw [allBInnerKids, hni', Bool.and_eq_true] at hb
             simp only [Bool.false_eq_true, if_false] at hb
             refine ⟨by simp [allNList], ?_⟩
             intro blk' st' e
             cases e
             exact hcb hb.1
         · rw [if_neg h2]
-          by_cases h3 : (c.ty == .inline) = true
+          by_cases h3 : (c.ty == .inline && !c.a.running) = true
           · rw [if_pos h3] at hAc ⊢
+            have h3i : c.ty = .inline := eq_of_beq (Bool.and_eq_true_iff.1 h3).1
             have hcv : validStack c st = true := by
               rcases hhead with h | ⟨_, h⟩
               · subst h; exact validStack_nil c
               · exact h
-            have hnbc : isBlockContainer c.ty = false := by rw [eq_of_beq h3]; rfl
+            have hnbc : isBlockContainer c.ty = false := by rw [h3i]; rfl
             have hck := inner_of_nonBC c hAc hnbc
             obtain ⟨c', r, he, hty, hnf, hcl, hr, hcb⟩ := innerBII_main c st hck.1 hck.2 hcv
             have hb' : (isBlockLevel c'.ty && inNormalFlow c'.a) = false := by
-              rw [hty, eq_of_beq h3]; rfl
-            have hl' : (c'.ty == .line) = false := by rw [hty, eq_of_beq h3]; rfl
+              rw [hty, h3i]; rfl
+            have hl' : (c'.ty == .line) = false := by rw [hty, h3i]; rfl
             cases r with
             | some p =>
               obtain ⟨blk, rs⟩ := p
@@ -569,7 +589,7 @@ mutual
               · intro blk' st' e
                 cases e
                 refine ⟨q1, q2, idx, rs, rfl, Nat.le_refl _, by omega,
-                  Or.inr ⟨Nat.le_refl _, c, by simp, eq_of_beq h3, q4⟩, ?_⟩
+                  Or.inr ⟨Nat.le_refl _, c, by simp, h3, q4⟩, ?_⟩
                 rw [remKids, remKids]
                 simp only [Nat.lt_irrefl, h1, if_false, h2, h3, if_true, Bool.false_eq_true]
                 rw [remKids_skip_irrel cs (idx + 1) idx skip [] (by omega) (by omega)]
@@ -594,7 +614,7 @@ mutual
             have hst : st = [] := by
               rcases hhead with h | ⟨h, _⟩
               · exact h
-              · simp [h] at h3
+              · exact absurd h h3
             subst hst
             obtain ⟨c', he, hty, ha, hcl, hcb⟩ := bii_main c hAc
             obtain ⟨rest, r', he', hk', hr', hbk'⟩ :=
@@ -603,7 +623,7 @@ mutual
               ROK_continue c cs idx skip [] r' h1 hr', fun hb => ?_⟩
             · simp [he, he', bind, Except.bind, pure, Except.pure]
             · rw [hty, ha]; simpa using h2
-            · intro h; rw [hty] at h; exact absurd h h3
+            · intro h; rw [hty, ha] at h; exact absurd h h3
             · rw [hty]; exact hLc.1
             · rw [allBInnerKids, if_neg h3, Bool.and_eq_true] at hb
               obtain ⟨g3, g4⟩ := hbk' hb.2
@@ -643,52 +663,45 @@ end
 
 mutual
   theorem allB_of_allN (p : Ty → Attrs → List Box → Bool) : (b : Box) → allN p b = true →
-      allN linesNoRunningInline b = true → allN linesNotRunning b = true → allB p b = true
-    | .mk ty a kids cols, h1, h2, h3 => by
+      allN linesNotRunning b = true → allB p b = true
+    | .mk ty a kids cols, h1, h3 => by
       rw [allB]
       cases hr : a.running with
       | true => simp
       | false =>
-        rw [allN, hr, Bool.false_or, Bool.and_eq_true] at h1 h2 h3
-        rw [h1.1, allBKids_of_allN p kids h1.2 h2.2 h3.2 h2.1 h3.1]; simp
+        rw [allN, hr, Bool.false_or, Bool.and_eq_true] at h1 h3
+        rw [h1.1, allBKids_of_allN p kids h1.2 h3.2 h3.1]; simp
   theorem allBKids_of_allN (p : Ty → Attrs → List Box → Bool) : (cs : List Box) → allNList p cs = true →
-      allNList linesNoRunningInline cs = true → allNList linesNotRunning cs = true →
-      cs.all (fun c => !(c.ty == .line) || noRunningInline c) = true →
+      allNList linesNotRunning cs = true →
       cs.all (fun c => !(c.ty == .line) || !c.a.running) = true → allBKids p cs = true
-    | [], _, _, _, _, _ => by simp [allBKids]
-    | c :: cs, h1, h2, h3, h4, h5 => by
-      rw [allNList, Bool.and_eq_true] at h1 h2 h3
-      rw [List.all_cons, Bool.and_eq_true] at h4 h5
-      rw [allBKids, allBKids_of_allN p cs h1.2 h2.2 h3.2 h4.2 h5.2, Bool.and_true]
+    | [], _, _, _ => by simp [allBKids]
+    | c :: cs, h1, h3, h5 => by
+      rw [allNList, Bool.and_eq_true] at h1 h3
+      rw [List.all_cons, Bool.and_eq_true] at h5
+      rw [allBKids, allBKids_of_allN p cs h1.2 h3.2 h5.2, Bool.and_true]
       by_cases hl : (c.ty == .line) = true
       · rw [if_pos hl]
-        have g4 := h4.1
         have g5 := h5.1
-        simp [hl] at g4 g5
-        exact allBInner_of_allN p c h1.1 h2.1 h3.1 g5 g4
-      · rw [if_neg hl]; exact allB_of_allN p c h1.1 h2.1 h3.1
+        simp [hl] at g5
+        exact allBInner_of_allN p c h1.1 h3.1 g5
+      · rw [if_neg hl]; exact allB_of_allN p c h1.1 h3.1
   theorem allBInner_of_allN (p : Ty → Attrs → List Box → Bool) : (c : Box) → allN p c = true →
-      allN linesNoRunningInline c = true → allN linesNotRunning c = true →
-      c.a.running = false → noRunningInline c = true → allBInner p c = true
-    | .mk ty a kids cols, h1, h2, h3, hr, hn => by
+      allN linesNotRunning c = true → c.a.running = false → allBInner p c = true
+    | .mk ty a kids cols, h1, h3, hr => by
       simp only [Box.a] at hr
-      rw [allN, hr, Bool.false_or, Bool.and_eq_true] at h1 h2 h3
-      rw [noRunningInline] at hn
-      rw [allBInner, h1.1, allBInnerKids_of_allN p kids h1.2 h2.2 h3.2 hn]; rfl
+      rw [allN, hr, Bool.false_or, Bool.and_eq_true] at h1 h3
+      rw [allBInner, h1.1, allBInnerKids_of_allN p kids h1.2 h3.2]; rfl
   theorem allBInnerKids_of_allN (p : Ty → Attrs → List Box → Bool) : (cs : List Box) →
-      allNList p cs = true → allNList linesNoRunningInline cs = true →
-      allNList linesNotRunning cs = true → noRunningInlineList cs = true → allBInnerKids p cs = true
-    | [], _, _, _, _ => by simp [allBInnerKids]
-    | c :: cs, h1, h2, h3, hn => by
-      rw [allNList, Bool.and_eq_true] at h1 h2 h3
-      rw [noRunningInlineList, Bool.and_eq_true] at hn
-      rw [allBInnerKids, allBInnerKids_of_allN p cs h1.2 h2.2 h3.2 hn.2, Bool.and_true]
-      by_cases hi : (c.ty == .inline) = true
+      allNList p cs = true → allNList linesNotRunning cs = true → allBInnerKids p cs = true
+    | [], _, _ => by simp [allBInnerKids]
+    | c :: cs, h1, h3 => by
+      rw [allNList, Bool.and_eq_true] at h1 h3
+      rw [allBInnerKids, allBInnerKids_of_allN p cs h1.2 h3.2, Bool.and_true]
+      by_cases hi : (c.ty == .inline && !c.a.running) = true
       · rw [if_pos hi]
-        have g := hn.1
-        simp [hi] at g
-        exact allBInner_of_allN p c h1.1 h2.1 h3.1 g.1 g.2
-      · rw [if_neg hi]; exact allB_of_allN p c h1.1 h2.1 h3.1
+        have g : c.a.running = false := by simpa using (Bool.and_eq_true_iff.1 hi).2
+        exact allBInner_of_allN p c h1.1 h3.1 g
+      · rw [if_neg hi]; exact allB_of_allN p c h1.1 h3.1
 end
 
 /-! ### item 1: `innerBII` — success on valid stacks, validity and progress of the returned stack -/
@@ -727,23 +740,23 @@ theorem blockInInline_total (b : Box) (h : allAll linesAlone b = true) :
 /-- item 3, variant (b), with the extra hypothesis that line boxes are not running (needed, see
     `running_line_witness`) -/
 theorem blockInInline_total' (b : Box) (h : allN linesAlone b = true)
-    (h3 : allN linesNoRunningInline b = true) (h4 : allN linesNotRunning b = true) :
+    (h4 : allN linesNotRunning b = true) :
     ∃ b', blockInInline b = .ok b' ∧ b'.ty = b.ty ∧ b'.a = b.a :=
-  blockInInline_total_allB b (allB_of_allN _ b h h3 h4)
+  blockInInline_total_allB b (allB_of_allN _ b h h4)
 
 theorem blockInInline_linesClean_allB (b b' : Box) (hb : blockInInline b = .ok b')
-    (h : allB linesAlone b = true) : allN linesClean b' = true := by
+    (h : allB linesAlone b = true) : allN linesCleanR b' = true := by
   obtain ⟨b'', he, _, _, h3, _⟩ := bii_main b h
   rw [he] at hb; injection hb with hb; subst hb; exact h3
 
 theorem blockInInline_linesClean (b b' : Box) (hb : blockInInline b = .ok b')
-    (h : allAll linesAlone b = true) : allN linesClean b' = true :=
+    (h : allAll linesAlone b = true) : allN linesCleanR b' = true :=
   blockInInline_linesClean_allB b b' hb (allB_of_allAll _ b h)
 
 theorem blockInInline_linesClean' (b b' : Box) (hb : blockInInline b = .ok b')
-    (h : allN linesAlone b = true) (h3 : allN linesNoRunningInline b = true)
-    (h4 : allN linesNotRunning b = true) : allN linesClean b' = true :=
-  blockInInline_linesClean_allB b b' hb (allB_of_allN _ b h h3 h4)
+    (h : allN linesAlone b = true) (h4 : allN linesNotRunning b = true) :
+    allN linesCleanR b' = true :=
+  blockInInline_linesClean_allB b b' hb (allB_of_allN _ b h h4)
 
 theorem blockInInline_bcOK_allB (b b' : Box) (hb : blockInInline b = .ok b')
     (h1 : allB bcOK b = true) (h2 : allB linesAlone b = true) : allN bcOK b' = true := by
@@ -754,17 +767,17 @@ theorem blockInInline_bcOK_allB (b b' : Box) (hb : blockInInline b = .ok b')
     false, see `running_line_witness`) -/
 theorem blockInInline_bcOK (b b' : Box) (hb : blockInInline b = .ok b')
     (h1 : allN bcOK b = true) (h2 : allN linesAlone b = true)
-    (h3 : allN linesNoRunningInline b = true) (h4 : allN linesNotRunning b = true) :
+    (h4 : allN linesNotRunning b = true) :
     allN bcOK b' = true :=
-  blockInInline_bcOK_allB b b' hb (allB_of_allN _ b h1 h3 h4) (allB_of_allN _ b h2 h3 h4)
+  blockInInline_bcOK_allB b b' hb (allB_of_allN _ b h1 h4) (allB_of_allN _ b h2 h4)
 
 theorem blockInInline_bcOK_allAll (b b' : Box) (hb : blockInInline b = .ok b')
     (h1 : allAll bcOK b = true) (h2 : allAll linesAlone b = true) : allN bcOK b' = true :=
   blockInInline_bcOK_allB b b' hb (allB_of_allAll _ b h1) (allB_of_allAll _ b h2)
 
 /-- a running *line box* is entered by `blockInInline` although `allN` does not look below it: the
-    hypotheses `h1 h2 h3` of item 5 alone do not give `allN bcOK` of the result, and `allN linesAlone`
-    together with `allN linesNoRunningInline` does not give totality. -/
+    hypotheses `h1 h2` of item 5 alone (even with `allN linesNoRunningInline`) do not give `allN bcOK`
+    of the result, and `allN linesAlone` (even with `allN linesNoRunningInline`) does not give totality. -/
 def runningLineWitness : Box :=
   .mk .block {} [ .mk .line { running := true } [ .mk .block {} [ .mk .text { text := "b" } [] [] ] [] ] [] ] []
 
@@ -865,7 +878,7 @@ mutual
               rw [remKids_skip_irrel cs (idx + 1) (idx + 1) skip [] (by omega) (by omega)]
               omega
         · rw [if_neg h2] at h
-          by_cases h3 : (c.ty == .inline) = true
+          by_cases h3 : (c.ty == .inline && !c.a.running) = true
           · rw [if_pos h3] at h
             cases hi : innerBII c st with
             | error e => simp [hi, bind, Except.bind] at h
@@ -880,7 +893,7 @@ mutual
                 rw [← h.2] at e
                 cases e
                 refine ⟨idx, rs, rfl, Nat.le_refl _, by omega,
-                  Or.inr ⟨Nat.le_refl _, c, by simp, eq_of_beq h3, q4⟩, ?_⟩
+                  Or.inr ⟨Nat.le_refl _, c, by simp, h3, q4⟩, ?_⟩
                 rw [remKids, remKids]
                 simp only [Nat.lt_irrefl, h1, if_false, h2, h3, if_true, Bool.false_eq_true]
                 rw [remKids_skip_irrel cs (idx + 1) idx skip [] (by omega) (by omega)]
@@ -914,16 +927,21 @@ end
 end WR.C09
 
 /-
-  Status.  Everything asked for is proved, with these deviations from the wished statements:
-  * `blockInInline_total` is variant (a): hypothesis `allAll linesAlone b`.  Variant (b) as literally
-    stated (`allN linesAlone` + `allN linesNoRunningInline`) is FALSE (second half of
-    `running_line_witness`: a running line box is still scanned by `innerBII`); with the additional
-    hypothesis `allN linesNotRunning b` it is `blockInInline_total'`.  Both follow from
-    `blockInInline_total_allB`.
-  * `blockInInline_linesClean` needs a hypothesis (a line box nested in a line box is not cleaned):
-    `allAll linesAlone b` (or the `allB` / `allN`+h3+h4 variants).
-  * `blockInInline_bcOK` with exactly `h1 h2 h3` is FALSE (first half of `running_line_witness`); it is
+  Status (model with opaque running inline boxes: `innerKids` enters an inline box only when it is not
+  running).
+  * `validStack`, `remaining`/`remKids`, `allBInnerKids` follow the new condition
+    `c.ty == .inline && !c.a.running`.
+  * `blockInInline_total` is variant (a): hypothesis `allAll linesAlone b`.  Variant (b) needs only
+    `allN linesAlone b` and `allN linesNotRunning b` (`blockInInline_total'`); the former hypothesis
+    `allN linesNoRunningInline b` is gone.  `allN linesNotRunning` is still needed (second half of
+    `running_line_witness`: a running line box is still scanned by `biiKids`).
+  * `blockInInline_linesClean*` conclude `allN linesCleanR b'` (`linesClean` with running inline boxes
+    opaque: a running inline box inside a line keeps its in-flow block children, see
+    `running_inline_kept`); they need a hypothesis (a line box nested in a line box is not cleaned):
+    `allAll linesAlone b` (or the `allB` / `allN`+h4 variants).
+  * `blockInInline_bcOK` with only `h1 h2` is FALSE (first half of `running_line_witness`); it is
     proved with the extra hypothesis `h4 : allN linesNotRunning b = true`; also `_allAll` and `_allB`.
   * `innerBII_ok` (success on valid stacks) assumes the tree shape (`linesAlone` at the visited boxes)
     instead of "all recursive blockInInline calls succeed"; `innerBII_progress_free` has no hypothesis.
+  * removed: `running_inline_split_witness` (now false), replaced by `running_inline_kept`.
 -/
